@@ -23,6 +23,23 @@ let handle kind c =
            prop "span-shape" (Printf.sprintf "now=%s weekend=%s begin=%s end=%s"
                                 (tok_of_z now) (tok_of_z w) (tok_of_z b) (tok_of_z e))
        end)
+  | "realclock" ->
+    let t0 = next_z c in
+    let t1 = next_z c in
+    let wk = next_bytes c in
+    let errs = next c in
+    let b = next_z c in
+    let e = next_z c in
+    let off = next_z c in
+    (match weekend_of_bytes wk with
+     | None -> if errs <> "err" then diff "span-error" ~model:"err" ~impl:errs
+     | Some w ->
+       if errs <> "ok" then diff "span-error" ~model:"ok" ~impl:errs
+       else if counter_span t0 w <> (b, e) && counter_span t1 w <> (b, e) then begin
+         diff "realclock-span" ~model:(tok_of_z (Stdlib.fst (counter_span t0 w))) ~impl:(tok_of_z b);
+         prop "span-shape" (Printf.sprintf "package clock, local zone offset %s s: now=%s begin=%s end=%s (the span is on the UTC calendar)"
+                              (tok_of_z off) (tok_of_z t0) (tok_of_z b) (tok_of_z e))
+       end)
   | "file" ->
     let now = next_z c in
     let w = next_z c in
@@ -44,24 +61,30 @@ let handle kind c =
     let now1 = next_z c in
     let w = next_z c in
     let after1 = next_bytes c in
+    let failed = next_bool c in
     let n1 = next_z c in
     let n2 = next_z c in
     let b0 = next_z c in let e0 = next_z c in
     let b1 = next_z c in let e1 = next_z c in
+    let blank = (weekend_of_bytes after1 = None) in
     let w1 = (match weekend_of_bytes after1 with Some x -> x | None -> w) in
     let files = next_list c (fun c -> let tb = next_bytes c in let te = next_bytes c in let v = next_z c in (tb, te, v)) in
     let s0 = counter_span now0 w in
-    let s1 = counter_span now1 w1 in
+    (* a blank setting: counterSpan fails, rotate1 records the error, drops the mapping
+       and keeps the old span; nothing is counted any more *)
+    let s1 = if blank then s0 else counter_span now1 w1 in
+    if failed <> (blank || ((not (rotate_keeps s0 now1 w1)) && second_opener s0 (counter_span now1 w1) = None)) then
+      diff "rot-failed" ~model:(string_of_bool (not failed)) ~impl:(string_of_bool failed);
     check_eq "rot-span0" (fun (a, b) -> tok_of_z a ^ "," ^ tok_of_z b) s0 (b0, e0);
     check_eq "rot-span1" (fun (a, b) -> tok_of_z a ^ "," ^ tok_of_z b) s1 (b1, e1);
-    let keeps = rotate_keeps s0 now1 w1 in
-    if not (span_ok now1 w1 (b1, e1)) then
+    let keeps = (not blank) && rotate_keeps s0 now1 w1 in
+    if (not blank) && not (span_ok now1 w1 (b1, e1)) then
       prop "span-shape" (Printf.sprintf "second rotation: now=%s weekend=%s begin=%s end=%s"
                            (tok_of_z now1) (tok_of_z w1) (tok_of_z b1) (tok_of_z e1));
     (* same begin date (same file name) but another end - possible only when the
        setting changed and rotate1 runs again the same day: openMapped refuses the
        first file's header (second_opener) and the process stops counting *)
-    let refused = (not keeps) && second_opener s0 s1 = None in
+    let refused = blank || ((not keeps) && second_opener s0 s1 = None) in
     let expect =
       if keeps then [ (meta_time_begin s0, meta_time_end s0, Z.add n1 n2) ]
       else if refused then [ (meta_time_begin s0, meta_time_end s0, n1) ]
@@ -76,7 +99,7 @@ let handle kind c =
           match uploader_reads tb te with
           | Some (b, _) -> Z.leb e0 b && v = n2
           | None -> false) files in
-      if not (old_ok && new_ok) then prop "rotation" (show files)
+      if not (old_ok && (new_ok || failed)) then prop "rotation" (show files)
     end
   | "share" ->
     let now0 = next_z c in
